@@ -299,25 +299,25 @@ PROPS["C04"] = {
 }
 
 
-_MAPS_UNIT = "kkt_assembly::assemble_kkt_matrix (LDLDataMap::new, _kkt_assemble_colcounts, _kkt_assemble_fill, csc colcount_*/fill_* utilities, SOC sparse expansion fill); CompositeCone hook constructor"
+_MAPS_UNIT = "kkt_assembly::assemble_kkt_matrix (LDLDataMap::new, _kkt_assemble_colcounts, _kkt_assemble_fill, csc colcount_*/fill_* utilities, SOC sparse expansion fill); CompositeCone hook constructor; structure (patterns, layout, triangle) concrete, values symbolic"
 _MAPS_OR = ("K canonical of dimension n+m+p, all entries in the requested triangle; map.P / map.A entries at the recorded (transposed for tril) positions with the user's values; diag_full/diagP point at every diagonal "
             "position (structural zeros where P has none); Hsblocks hit the diagonal (diagonal cones) or the packed triangle in order (dense cones); u,v,D of SOC expansions hit the extra columns/rows; all index sets disjoint and covering K")
 PROPS["C11"] = {
     "native_tests": ["tv_composite", "tv_kkt"],
     "feature": "c11",
-    "bounds_note": "n=2; P patterns enumerated (empty, diagonal, missing diagonals, full); cone layouts enumerated ([Zero1,NN2], [NN1,SOC3], [SOC5] sparse, [Exp], [NN1,SOC5,Zero1]); A symbolic canonical pattern with 2-3 entries; symbolic values; both triangles",
+    "bounds_note": "n=2; P patterns enumerated (empty, diagonal, missing diagonals, full); cone layouts enumerated ([Zero1,NN2], [NN1,SOC3], [SOC5] sparse, [Exp], [NN1,SOC5,Zero1]); 4 enumerated A patterns per harness (dense, last-row only, empty first column, scattered); symbolic values; both triangles",
     "outside": "exp/pow Hs numerics; GenPow sparse expansion positions; the regularise/refactor/restore cycle of DirectLDLKKTSolver::update (needs a live LDL engine: AMD) ; sign vector",
     "assumptions": ["CompositeCone built by the hook constructor new_without_type_counts (identical to CompositeCone::new except the printing-only HashMap); RandomState::new stubbed with fixed keys"],
     "harnesses": _mk("c11", [
-        ("c11_maps_znn_p3_triu", dict(stubs=True, unit=_MAPS_UNIT, inst="f64 small ints (values only copied)", bounds="cones [Zero1,NN2], P full triu, A 3x2 nnz=3, triu", oracle=_MAPS_OR, timeout=1500, mem_gb=20)),
-        ("c11_maps_znn_p2_tril", dict(stubs=True, unit=_MAPS_UNIT, inst="f64", bounds="cones [Zero1,NN2], P missing (1,1), tril", oracle=_MAPS_OR, timeout=1500, mem_gb=20)),
-        ("c11_maps_znn_p0_triu", dict(stubs=True, rot=True, unit=_MAPS_UNIT, inst="f64", bounds="cones [Zero1,NN2], empty P, triu", oracle=_MAPS_OR, timeout=1500, mem_gb=20)),
-        ("c11_maps_znn_p4_tril", dict(stubs=True, rot=True, unit=_MAPS_UNIT, inst="f64", bounds="cones [Zero1,NN2], P only (0,1), tril", oracle=_MAPS_OR, timeout=1500, mem_gb=20)),
+        ("c11_maps_znn_p3_triu", dict(stubs=True, unit=_MAPS_UNIT, inst="f64 small ints (values only copied)", bounds="cones [Zero1,NN2], P full triu, A 3x2 nnz=3, triu", oracle=_MAPS_OR, timeout=1200, mem_gb=20)),
+        ("c11_maps_znn_p2_tril", dict(stubs=True, unit=_MAPS_UNIT, inst="f64", bounds="cones [Zero1,NN2], P missing (1,1), tril", oracle=_MAPS_OR, timeout=1200, mem_gb=20)),
+        ("c11_maps_znn_p0_triu", dict(stubs=True, rot=True, unit=_MAPS_UNIT, inst="f64", bounds="cones [Zero1,NN2], empty P, triu", oracle=_MAPS_OR, timeout=1200, mem_gb=20)),
+        ("c11_maps_znn_p4_tril", dict(stubs=True, rot=True, unit=_MAPS_UNIT, inst="f64", bounds="cones [Zero1,NN2], P only (0,1), tril", oracle=_MAPS_OR, timeout=1200, mem_gb=20)),
         ("c11_maps_nnsoc3_p1_triu", dict(stubs=True, unit=_MAPS_UNIT, inst="f64", bounds="cones [NN1,SOC3] (dense 3x3 block), diagonal P, triu", oracle=_MAPS_OR, timeout=1800, mem_gb=20)),
         ("c11_maps_nnsoc3_p5_tril", dict(stubs=True, rot=True, unit=_MAPS_UNIT, inst="f64", bounds="cones [NN1,SOC3], P only (1,1), tril", oracle=_MAPS_OR, timeout=1800, mem_gb=20)),
         ("c11_maps_soc5_p3_triu", dict(stubs=True, unit=_MAPS_UNIT, inst="f64", bounds="cones [SOC5] (sparse expansion), full P, triu", oracle=_MAPS_OR, timeout=2400, mem_gb=24)),
         ("c11_maps_soc5_p2_tril", dict(stubs=True, tier="thorough", unit=_MAPS_UNIT, inst="f64", bounds="cones [SOC5], P missing diag, tril", oracle=_MAPS_OR, timeout=2400, mem_gb=24)),
-        ("c11_maps_soc3soc5_p1_triu", dict(stubs=True, unit=_MAPS_UNIT, inst="f64", bounds="cones [SOC3,SOC5]: sparse expansion after a dense block, diagonal P, triu", oracle=_MAPS_OR, timeout=3000, mem_gb=28)),
+        ("c11_maps_soc2soc5_p1_triu", dict(stubs=True, unit=_MAPS_UNIT, inst="f64", bounds="cones [SOC2,SOC5]: sparse expansion after a dense 2x2 block, diagonal P, A 7x2 nnz=2, triu", oracle=_MAPS_OR, timeout=3000, mem_gb=28)),
         ("c11_maps_expsoc5_p0_tril", dict(stubs=True, tier="thorough", unit=_MAPS_UNIT, inst="f64", bounds="cones [Exp,SOC5], empty P, tril", oracle=_MAPS_OR, timeout=3000, mem_gb=28)),
         ("c11_maps_exp_p4_triu", dict(stubs=True, rot=True, unit=_MAPS_UNIT, inst="f64", bounds="cones [Exp] dense block, P only (0,1), triu", oracle=_MAPS_OR, timeout=1800, mem_gb=20)),
         ("c11_maps_nnsoc5z_p1_tril", dict(stubs=True, tier="thorough", unit=_MAPS_UNIT, inst="f64", bounds="cones [NN1,SOC5,Zero1], diagonal P, tril", oracle=_MAPS_OR, timeout=3000, mem_gb=28)),
@@ -325,22 +325,25 @@ PROPS["C11"] = {
             oracle="at refactor the engine's copy == the KKT matrix (every P/A/Hs/diagonal write reached it); afterwards KKT holds the new P,A and an UNregularised diagonal; engine got +eps/-eps by sign; sign vector")),
         ("c11_kkt_sync_zero1_nn1_noreg", dict(stubs=True, nofloat=True, rot=True, unit="same", inst="f64", bounds="cones [Zero1,NN1], regularisation off", timeout=2400, mem_gb=24, oracle="same, no shift")),
         ("c11_kkt_sync_soc5_reg", dict(stubs=True, nofloat=True, tier="thorough", unit="same + SOC csc_update_sparsecone (_scale_values)", inst="f64", bounds="cones [SOC5] sparse expansion", timeout=3600, mem_gb=28, oracle="same")),
-    ]) + [dict(name="c13::c13_soc3_hs_block", unit="SecondOrderCone::get_Hs vs mul_Hs", inst="GF(17)", bounds="dim 3, all normalised w, eta, x", oracle="unpacked KKT block == operator applied when recovering the slack step", timeout=1200),
-          dict(name="c13::c13_soc5_update_scaling_sparse", unit="SecondOrderCone::update_scaling / sparse_data / get_Hs / mul_Hs", inst="GF(13)", bounds="dim 5", oracle="eta^2 (D + uu' - vv') == mul_Hs", timeout=2400, mem_gb=20)],
+    ]) + [dict(name="c13::c13_soc3_hs_block_p7", unit="SecondOrderCone::get_Hs vs mul_Hs", inst="GF(7)", bounds="dim 3, all normalised w, eta, x", oracle="unpacked KKT block == operator applied when recovering the slack step", timeout=1500),
+          dict(name="c13::c13_soc5_update_scaling_sparse_p31", unit="SecondOrderCone::update_scaling / sparse_data / get_Hs / mul_Hs", inst="GF(31)", bounds="dim 5", oracle="eta^2 (D + uu' - vv') == mul_Hs", timeout=3600, mem_gb=28)],
 }
 PROPS["C13"] = {
     "feature": "c13",
-    "bounds_note": "SOC dimension 3 (dense) and 5 (sparse expansion), NN dimension 2; GF(13) / GF(17) / GF(31): all field values",
-    "outside": "floating-point accuracy near the cone boundary; PSD cone (LAPACK); W z = lambda is decided only up to the common sign of the nested square roots",
-    "assumptions": ["sqrt in GF(p) is an arbitrary root; paths whose sqrt argument is not a square are cut (each harness has a cover witness behind the calls)"],
+    "bounds_note": "SOC dimension 3 (dense) and 5 (sparse expansion), NN dimension 2; GF(7) quick, GF(13) / GF(17) / GF(31) thorough: all field values",
+    "outside": "floating-point accuracy near the cone boundary; PSD cone (LAPACK); the Nesterov-Todd identity (W'W) z = s and W z = lambda after update_scaling: they hold only for a coherent (positive) choice of the nested square roots, which a finite field cannot express - NOT decided; what is decided about update_scaling are the root-independent facts",
+    "assumptions": ["sqrt in GF(p) is an arbitrary root; paths whose sqrt argument is not a square are cut (each harness has a cover witness behind the calls)", "the constant SQRT_2 is the canonical root of 2 (GF(7), GF(17), GF(31))"],
     "harnesses": _mk("c13", [
-        ("c13_soc3_w_winv", dict(unit="SecondOrderCone::mul_W / mul_Winv (_soc_mul_W_inner, _soc_mul_Winv_inner)", inst="GF(13)", bounds="dim 3, all normalised w (w0^2-|w1|^2=1), eta!=0", oracle="Winv W = W Winv = I; W symmetric; alpha/beta form", timeout=1200)),
-        ("c13_soc5_w_winv", dict(tier="thorough", unit="same", inst="GF(13)", bounds="dim 5", oracle="same", timeout=2400)),
-        ("c13_soc3_hs_dense", dict(unit="SecondOrderCone::mul_Hs", inst="GF(13)", bounds="dim 3", oracle="mul_Hs == W'W", timeout=1200)),
-        ("c13_soc3_hs_block", dict(unit="SecondOrderCone::get_Hs", inst="GF(17)", bounds="dim 3", oracle="unpacked packed-triu block == mul_Hs", timeout=1200)),
-        ("c13_soc3_update_scaling", dict(unit="SecondOrderCone::update_scaling", inst="GF(13)", bounds="dim 3, all s,z with square nonzero residuals", oracle="w normalised; (W'W) z = s; W z = W^-T s = +-lambda", timeout=2400, mem_gb=20)),
-        ("c13_soc5_update_scaling_sparse", dict(unit="SecondOrderCone::update_scaling incl. sparse_data (u,v,d)", inst="GF(13)", bounds="dim 5", oracle="as above + eta^2(D+uu'-vv') == mul_Hs; D block = eta^2 diag(d,1,..)", timeout=3000, mem_gb=24)),
-        ("c13_soc5_update_scaling_sparse_p31", dict(tier="thorough", unit="same", inst="GF(31)", bounds="dim 5", oracle="same", timeout=3600, mem_gb=28)),
+        ("c13_soc3_w_winv_p7", dict(unit="SecondOrderCone::mul_W / mul_Winv (_soc_mul_W_inner, _soc_mul_Winv_inner)", inst="GF(7)", bounds="dim 3, all normalised w (w0^2-|w1|^2=1), eta!=0", oracle="Winv W = W Winv = I; W symmetric; alpha/beta form", timeout=1500)),
+        ("c13_soc3_w_winv", dict(tier="thorough", unit="same", inst="GF(13)", bounds="dim 3", oracle="same", timeout=3600, mem_gb=20)),
+        ("c13_soc5_w_winv", dict(tier="thorough", unit="same", inst="GF(13)", bounds="dim 5", oracle="same", timeout=5400, mem_gb=24)),
+        ("c13_soc3_hs_dense_p7", dict(unit="SecondOrderCone::mul_Hs", inst="GF(7)", bounds="dim 3", oracle="mul_Hs == W'W", timeout=1500)),
+        ("c13_soc3_hs_dense", dict(tier="thorough", unit="same", inst="GF(13)", bounds="dim 3", oracle="same", timeout=3600)),
+        ("c13_soc3_hs_block_p7", dict(unit="SecondOrderCone::get_Hs (dense packed block)", inst="GF(7)", bounds="dim 3", oracle="unpacked packed-triu block == mul_Hs", timeout=1500)),
+        ("c13_soc3_hs_block", dict(tier="thorough", unit="same", inst="GF(17)", bounds="dim 3", oracle="same", timeout=3600)),
+        ("c13_soc3_update_scaling", dict(unit="SecondOrderCone::update_scaling", inst="GF(13)", bounds="dim 3, all s,z with square nonzero residuals", oracle="w normalised; eta^4 = res(s)/res(z)", timeout=2400, mem_gb=20)),
+        ("c13_soc5_update_scaling_sparse", dict(tier="thorough", unit="SecondOrderCone::update_scaling incl. sparse_data (u,v,d)", inst="GF(13)", bounds="dim 5", oracle="as above + eta^2(D+uu'-vv') == mul_Hs; D block = eta^2 diag(d,1,..)", timeout=3000, mem_gb=24)),
+        ("c13_soc5_update_scaling_sparse_p31", dict(unit="same", inst="GF(31)", bounds="dim 5", oracle="same", timeout=3600, mem_gb=28)),
         ("c13_soc3_jordan", dict(unit="SecondOrderCone::circ_op/inv_circ_op/affine_ds/combined_ds_shift (_combined_ds_shift_symmetric)", inst="GF(13)", bounds="dim 3", oracle="arrow product; inverse; lambda o lambda; W^-1 ds o W dz - sigma mu e", timeout=1800)),
         ("c13_nn_scaling", dict(unit="NonnegativeCone::update_scaling/get_Hs/mul_Hs/mul_W/mul_Winv/affine_ds/Ds_from_Dz_offset", inst="GF(13)", bounds="dim 2", oracle="Hs z = s; lambda^2 = s z; Winv W = I; offset = ds/z", timeout=1200)),
     ]),
@@ -355,7 +358,7 @@ _c15 = [
     ("c15_nn3_exact_pow2", dict(nofloat=True, tier="thorough", unit="same", inst="same", bounds="dim 3", oracle="same", timeout=3000)),
     ("c15_zero_cone", dict(nofloat=True, unit="ZeroCone::step_length", inst="f64", bounds="dim 2", oracle="(alpha_max, alpha_max)")),
     ("c15_backtrack", dict(nofloat=True, unit="nonsymmetric_common::backtrack_search", inst="f64", bounds="arbitrary membership oracle (6 arbitrary answers), step 0.5, alpha_min = alpha_init/20", oracle="terminates; returns 0 or alpha_init*step^k; returned alpha accepted, all larger candidates rejected", timeout=1200)),
-    ("c15_composite_nn_soc", dict(nofloat=True, stubs=True, unit="CompositeCone::step_length", inst="f64 every bit pattern", bounds="[NN2, SOC3]", oracle="common step, in [0,alpha_max], not longer than the NN part allows", timeout=2400, mem_gb=20)),
+    ("c15_composite_nn_zero_nn", dict(nofloat=True, stubs=True, unit="CompositeCone::step_length (+ NonnegativeCone / ZeroCone)", inst="f64: signed powers of two", bounds="[NN1, Zero1, NN2]", oracle="common step == exact minimum over the cones' ratio tests and alpha_max; zero cone unrestricted", timeout=1800, mem_gb=20)),
     ("c15_shift_nn", dict(nofloat=True, stubs=True, unit="DefaultVariables::symmetric_initialization -> _shift_to_cone_interior, CompositeCone::margins/scaled_unit_shift", inst="f64, |v| <= 1e100", bounds="[NN2, Zero1]", oracle="afterwards s,z strictly positive in the NN cone; zero-cone slack 0; tau=kappa=1", timeout=1800)),
 ]
 PROPS["C15"] = {
